@@ -9,7 +9,8 @@ import z3
 Z3_TIMEOUT_MS = int(os.environ.get('PYVC_Z3_TIMEOUT_MS', '20000'))
 CVC5_TIMEOUT_S = int(os.environ.get('PYVC_CVC5_TIMEOUT_S', '15'))
 CVC5 = '/usr/bin/cvc5'
-Z3CLI = '/usr/bin/z3'
+Z3CLI = '/usr/local/bin/z3-new' if os.path.exists('/usr/local/bin/z3-new') else '/usr/bin/z3'
+EMATCH_TIMEOUT_MS = int(os.environ.get('PYVC_EMATCH_TIMEOUT_MS', '6000'))
 
 # Quantifier instantiation by E-matching only in the in-process solver (fast, Boogie-style); an `unknown` is retried
 # by the z3 CLI with model-based instantiation and by cvc5 on the exported SMT-LIB text.
@@ -23,7 +24,7 @@ def check(pc, goal, timeout_ms=None, want_model=True, observe=()):
   if z3.is_true(g):
     return 'unsat', None, 'trivial', 0.0
   s = z3.Solver()
-  s.set('timeout', timeout_ms or Z3_TIMEOUT_MS)
+  s.set('timeout', min(EMATCH_TIMEOUT_MS, timeout_ms or Z3_TIMEOUT_MS))
   s.set('random_seed', 7)
   for c in pc:
     s.add(c)
@@ -43,7 +44,7 @@ def check(pc, goal, timeout_ms=None, want_model=True, observe=()):
           pass
     return 'sat', model, 'z3', dt
   # unknown: z3 with MBQI (CLI), then cvc5, on the exported problem
-  st = cli_check(s, [Z3CLI if os.path.exists(Z3CLI) else 'z3', '-T:%d' % max(5, (timeout_ms or Z3_TIMEOUT_MS) // 2000), 'smt.mbqi=true'])
+  st = cli_check(s, [Z3CLI if os.path.exists(Z3CLI) else 'z3', '-T:%d' % max(5, (timeout_ms or Z3_TIMEOUT_MS) // 1000), 'smt.mbqi=true'])
   if st in ('unsat', 'sat'):
     # MBQI only answers sat when its model satisfies the quantifiers; no model is extracted from the CLI run
     return st, ({} if st == 'sat' else None), 'z3-cli-mbqi', time.time() - t0
